@@ -279,6 +279,14 @@ fn race_scenario<S: MdkStorageProvider>(col: &mut Col, mk: &dyn Fn(&str) -> MDK<
         collect_secrets(col, "c(after race)", &c, &g);
         collect_secrets(col, "a(after race)", &a, &g);
     }
+    // a member leaves; an admin receives the proposal and auto-commits it (the `Proposal` processing result), a plain member
+    // keeps it pending, and the proposal is offered again
+    if let Some(lv) = col.call("race: leave_group(c)", || c.leave_group(&g)) {
+        col.process("race: admin a receives the leave proposal", &a, &lv.evolution_event);
+        col.process("race: admin a receives it again", &a, &lv.evolution_event);
+        col.process("race: admin b receives the leave proposal", &b, &lv.evolution_event);
+        let _ = col.call("race: a merges the auto-commit", || a.merge_pending_commit(&g));
+    }
 }
 
 fn norm_file(f: &str) -> String {
